@@ -655,6 +655,15 @@ class Interp:
             return [(pc, T.const(1))]
         if re.fullmatch(r'<\w+ as (num_traits::)?Zero>::is_zero', c):
             return [(pc, self.cmp('Eq', d[0], T.const(0)))]
+        if re.fullmatch(r'<\w+ as (?:num_traits::)?Float>::is_finite', c) and isinstance(T, RealTheory):
+            return [(pc, True)]
+        if re.fullmatch(r'<\w+ as (?:num_traits::)?Float>::infinity', c) and isinstance(T, RealTheory):
+            if not hasattr(self, 'infinity'):
+                self.infinity = T.var('F_INFINITY')      # the obligation states what it dominates
+            return [(pc, self.infinity)]
+        if re.fullmatch(r'<\w+ as AddAssign>::add_assign', c) and isinstance(argv[0], Ref) and argv[0].set:
+            argv[0].set(T.add(d[0], d[1]))
+            return [(pc, [])]
         if re.fullmatch(r'<\w+ as (?:num_traits::)?Float>::(is_nan|is_infinite)', c) and isinstance(T, RealTheory):
             return [(pc, False)]      # the reals have neither; the obligation states the side condition (non-zero divisor)
         m = re.fullmatch(r'<\w+ as (?:num_traits::)?Float>::(max|min|abs)', c)
